@@ -130,3 +130,33 @@ package lsm
 //@   ensures [at-most-one-removal] walRemovals <= old(walRemovals) + 1
 //@   ensures [error-before-install-removes-nothing] err != nil && editsLogged == old(editsLogged) && sawValidEntry ==> walRemovals == old(walRemovals)
 //@   loop 1 invariant [building] walRemovals == old(walRemovals) && editsLogged == old(editsLogged) && sawValidEntry
+
+// C01 kernel (L0 lookup): the L0 tables (kept in creation order, ascending file id) are
+// searched from the NEWEST to the oldest, and a table replaces the current candidate only
+// with a strictly greater version - so on a version tie (the plain API rewrites a key at
+// one internal version) the most recently flushed value wins. table.Search is a trusted
+// leaf: a hit raises *maxVs strictly; the ghost records the order of the searches.
+//@ ghost var l0Searches Int
+//@ ghost var l0LastSearchedFid uint64
+//@ ghost var l0OrderBroken bool
+//@ func (*table).Search
+//@   trusted
+//@   ghost l0OrderBroken = l0OrderBroken || (l0Searches > 0 && t.fid >= l0LastSearchedFid)
+//@   ghost l0Searches = l0Searches + 1
+//@   ghost l0LastSearchedFid = t.fid
+//@   ensures [hit-raises-the-version-strictly] err == nil ==> entry != nil && *maxVs > old(*maxVs)
+//@   ensures [miss-keeps-the-version] err != nil ==> *maxVs == old(*maxVs)
+//@   modifies *maxVs
+//@ func github.com/feichai0017/NoKV/utils::CompareUserKeys
+//@   trusted
+//@   modifies nothing
+//@ func github.com/feichai0017/NoKV/kv::(*Entry).DecrRef
+//@   trusted
+//@   modifies nothing
+//@ func (*levelHandler).searchL0SST
+//@   property C01
+//@   requires [creation-order] lh != nil && (forall i int, j int :: 0 <= i && i < j && j < len(lh.tables) && lh.tables[i] != nil && lh.tables[j] != nil ==> lh.tables[i].fid < lh.tables[j].fid)
+//@   requires [fresh-walk] l0Searches == 0 && !l0OrderBroken
+//@   ensures [newest-first] !l0OrderBroken
+//@   ensures [found-means-some-table-hit] result1 == nil ==> result != nil && l0Searches > 0
+//@   loop 1 invariant [descending] lh != nil && !l0OrderBroken && -1 <= i && i < len(lh.tables) && (l0Searches > 0 ==> (forall j int :: 0 <= j && j <= i && j < len(lh.tables) && lh.tables[j] != nil ==> lh.tables[j].fid < l0LastSearchedFid)) && l0Searches >= 0 && (best != nil ==> l0Searches > 0) && (forall a int, b int :: 0 <= a && a < b && b < len(lh.tables) && lh.tables[a] != nil && lh.tables[b] != nil ==> lh.tables[a].fid < lh.tables[b].fid)
